@@ -196,7 +196,7 @@ class KaniRun:
             os.makedirs(outdir, exist_ok=True)
             cmd = ['cargo', 'kani', '-Z', 'function-contracts', '-Z', 'stubbing', '-Z', 'unstable-options',
                    '--target-dir', KTARGET, '--output-format', 'terse', '-j', str(jobs),
-                   '--harness-timeout', '%ds' % timeout_s, '--exact']
+                   '--harness-timeout', '%ds' % timeout_s, '--exact', '--no-overflow-checks']
             for ob in obligations:
                 cmd += ['--harness', ob.harness_path]
             if extra:
